@@ -173,9 +173,9 @@ def dictSet (d : DS) (o t : Nat) (key v : Int) : DS :=
   let c2 := c1.markModified key t
   let d1 := { d with colls := d.colls.set! o c2, dv := d.dv.set! o ((key, v) :: (d.dv.getD o []).filter (·.1 != key)) }
   let d2 := prim d1 dk o (.at key) t
-  prim d2 (dkStep dk (.at key) t) o .childTick t (some key)
+  prim d2 (dkStep dk (.at key) t) o (.childTick key) t (some key)
 
-/-- `TSDDataMutationView::erase(key)`; a non-changing erase still touches the DICTIONARY (`touch_impl` -> `mark_modified`) -/
+/-- `TSDDataMutationView::erase(key)`; a non-changing erase goes through `touch()` (dictionary ticks; key set iff never valid) -/
 def dictErase (d : DS) (o t : Nat) (key : Int) : DS × Bool :=
   let dk := d.dk o
   let (c', ch) := (d.colls.getD o {}).remove key t
@@ -245,7 +245,7 @@ def outerChildTick (d : DS) (o t : Nat) (k1 : Int) : DS :=
     else if c.rem.contains k1 then { c with rem := c.rem.filter (· != k1) } else { c with add := c.add ++ [k1] }
   let c2 : Coll := if c1.md.contains k1 then c1 else { c1 with md := c1.md ++ [k1] }
   let d1 := { d with colls := d.colls.set! o c2, pub := d.pub.set! o (if isPub then d.pub.getD o [] else k1 :: d.pub.getD o []) }
-  prim d1 dk o .childTick t (some k1)
+  prim d1 dk o (.childTick k1) t (some k1)
 
 /-- one primitive step of the inner dictionary; the outer is told when the inner record moves -/
 def innerPrim (d : DS) (o t : Nat) (k1 : Int) (p : Prim) (f : Coll → Coll) (gc : Option (Int × Int) := none) : DS :=
@@ -260,6 +260,22 @@ def innerPrim (d : DS) (o t : Nat) (k1 : Int) (p : Prim) (f : Coll → Coll) (gc
     | none => inn1
   let d1 := d.setInn o k1 inn2
   if inn2.d != inn.d then outerChildTick d1 o t k1 else d1
+
+/-- outer `erase(k1)` of the nested schema: the slot stays pending (with its inner dictionary) until the window rolls -/
+def outerDel (d : DS) (o t : Nat) (key : Int) : DS × Bool :=
+  let d0 := outerPrepare d o t
+  let live := (d0.colls.getD o {}).cur.contains key
+  let (d1, ch) := dictErase d0 o t key
+  let d2 := if live then { d1 with pend := d1.pend.set! o (key :: d1.pend.getD o []),
+                                   pub := d1.pub.set! o ((d1.pub.getD o []).filter (fun x => x != key)) } else d1
+  (d2, ch)
+
+/-- `TSDDataMutationView::clear()`: the live keys are collected, `touch()`, then `erase` of each (`KeySet.clearPrims`) -/
+def dictClear (d : DS) (o t : Nat) : DS :=
+  let keys := (d.colls.getD o {}).cur
+  let d0 := if d.kind == 3 then outerPrepare d o t else d
+  let d1 := dictTouch d0 o t
+  keys.foldl (fun acc key => if d.kind == 3 then (outerDel acc o t key).1 else (dictErase acc o t key).1) d1
 
 def stepD (d : DS) (ws : List String) : DS × String :=
   match ws with
@@ -321,11 +337,7 @@ def stepD (d : DS) (ws : List String) : DS × String :=
       if !isNat o || !isTime t || !isInt key then (d, "bad-op") else
       let (o, t, key) := (o.toNat!, t.toNat!, key.toInt!)
       if o ≥ 2 then (d, "bad-op") else
-      let d0 := outerPrepare d o t
-      let live := (d0.colls.getD o {}).cur.contains key
-      let (d1, ch) := dictErase d0 o t key
-      let d2 := if live then { d1 with pend := d1.pend.set! o (key :: d1.pend.getD o []),
-                                       pub := d1.pub.set! o ((d1.pub.getD o []).filter (· != key)) } else d1
+      let (d2, ch) := outerDel d o t key
       (d2, b2s ch)
     else if op == "setall" && d.kind == 2 then
       let (o, t, m) := (i, o, t)
@@ -362,11 +374,12 @@ def stepD (d : DS) (ws : List String) : DS × String :=
       | some ln =>
         if ln.tgt.isNone then (d, "bad-op") else
         ({ d with links := d.links.set! i (stepL d.structural d.prod ln (.unbind t)) }, "ok")
-    else if (op == "touch" || op == "empty") && d.kind ≥ 2 then
+    else if (op == "touch" || op == "empty" || op == "clear") && d.kind ≥ 2 then
       if !isNat o || !isTime t then (d, "bad-op") else
       let (o, t) := (o.toNat!, t.toNat!)
       if o ≥ 2 then (d, "bad-op") else
       if op == "empty" then (dictEmpty d o t, "ok") else
+      if op == "clear" then (dictClear d o t, "ok") else
       let d0 := if d.kind == 3 then outerPrepare d o t else d
       (dictTouch d0 o t, "ok")
     else (d, "bad-op")
@@ -389,7 +402,7 @@ def stepD (d : DS) (ws : List String) : DS × String :=
     if o ≥ 2 then (d, "bad-op") else
     let d1 := outerAt d o t k1
     let d2 := innerPrim d1 o t k1 (.at k2) (fun c => ((c.insert k2 t).1).markModified k2 t)
-    (innerPrim d2 o t k1 .childTick id (some (k2, v)), "ok")
+    (innerPrim d2 o t k1 (.childTick k2) id (some (k2, v)), "ok")
   | ["dump", t] =>
     if !d.have_ || !isTime t then (d, "bad-op") else (d, dumpLine d t.toNat!)
   | [] => (d, "")
